@@ -448,4 +448,180 @@ theorem structFields_converted (m : String) (fuel : Nat) (fields : List Field) (
           exact ⟨fuel', c, hc⟩
         · exact ih fuel' acc' h hf'
 
+/-! ### civil-date steps and the UTC normalisation of date-times -/
+section Dates
+open IsoMdl.Spec
+
+
+theorem dfc_next_in_month (y m d : Nat) : daysFromCivil y m (d + 1 : Nat) = daysFromCivil y m d + 1 := by
+  simp only [daysFromCivil]; push_cast; omega
+
+theorem isLeap_iff (y : Nat) : isLeap y = true ↔ (y % 4 = 0 ∧ y % 100 ≠ 0) ∨ y % 400 = 0 := by
+  simp [isLeap]
+
+/-- the first of the next month is the day after the last of this month -/
+theorem dfc_month_rollover (y m : Nat) (h1 : 1 ≤ m) (h2 : m < 12) :
+    daysFromCivil y (m + 1 : Nat) 1 = daysFromCivil y m (daysInMonth y m) + 1 := by
+  have hl := isLeap_iff y
+  have hm : m = 1 ∨ m = 2 ∨ m = 3 ∨ m = 4 ∨ m = 5 ∨ m = 6 ∨ m = 7 ∨ m = 8 ∨ m = 9 ∨ m = 10 ∨ m = 11 := by omega
+  rcases hm with rfl | rfl | rfl | rfl | rfl | rfl | rfl | rfl | rfl | rfl | rfl <;>
+    simp only [daysFromCivil, daysInMonth] <;> (try cases hleap : isLeap y) <;> simp <;> (try (rw [hleap] at hl; simp at hl)) <;> omega
+
+
+theorem dfc_year_rollover (y : Nat) : daysFromCivil (y + 1 : Nat) 1 1 = daysFromCivil y 12 31 + 1 := by
+  simp only [daysFromCivil]; push_cast; omega
+
+theorem daysInMonth_ge (y m : Nat) : 28 ≤ daysInMonth y m := by
+  unfold daysInMonth; split
+  · split <;> omega
+  · split <;> omega
+
+def ValidDate (y m d : Nat) : Prop := 1 ≤ m ∧ m ≤ 12 ∧ 1 ≤ d ∧ d ≤ daysInMonth y m
+
+theorem nextDay_dfc (y m d y' m' d' : Nat) (hv : ValidDate y m d) (h : nextDay y m d = some (y', m', d')) :
+    daysFromCivil y' m' d' = daysFromCivil y m d + 1 ∧ ValidDate y' m' d' := by
+  obtain ⟨h1, h2, h3, h4⟩ := hv
+  unfold nextDay at h
+  split at h
+  · injection h with h; injection h with hy h; injection h with hm hd; subst hy; subst hm; subst hd
+    exact ⟨dfc_next_in_month y m d, h1, h2, by omega, by omega⟩
+  · split at h
+    · injection h with h; injection h with hy h; injection h with hm hd; subst hy; subst hm; subst hd
+      have hd : d = daysInMonth y m := by omega
+      subst hd
+      have := daysInMonth_ge y (m + 1)
+      exact ⟨dfc_month_rollover y m h1 (by omega), by omega, by omega, by omega, by omega⟩
+    · split at h
+      · cases h
+      · injection h with h; injection h with hy h; injection h with hm hd; subst hy; subst hm; subst hd
+        push_cast
+        have hm12 : m = 12 := by omega
+        subst hm12
+        have h31 : daysInMonth y 12 = 31 := by simp [daysInMonth]
+        have hd : d = 31 := by omega
+        subst hd
+        exact ⟨dfc_year_rollover y, by omega, by omega, by omega, by simp [daysInMonth]⟩
+
+theorem prevDay_dfc (y m d y' m' d' : Nat) (hv : ValidDate y m d) (h : prevDay y m d = some (y', m', d')) :
+    daysFromCivil y' m' d' = daysFromCivil y m d - 1 ∧ ValidDate y' m' d' := by
+  obtain ⟨h1, h2, h3, h4⟩ := hv
+  unfold prevDay at h
+  split at h
+  · injection h with h; injection h with hy h; injection h with hm hd; subst hy; subst hm; subst hd
+    have := dfc_next_in_month y m (d - 1)
+    have hd : d - 1 + 1 = d := by omega
+    rw [hd] at this
+    exact ⟨by omega, h1, h2, by omega, by omega⟩
+  · split at h
+    · injection h with h; injection h with hy h; injection h with hm hd; subst hy; subst hm; subst hd
+      have hd1 : d = 1 := by omega
+      subst hd1
+      have := dfc_month_rollover y (m - 1) (by omega) (by omega)
+      have hmm : m - 1 + 1 = m := by omega
+      rw [hmm] at this
+      have hge := daysInMonth_ge y (m - 1)
+      push_cast at this ⊢
+      exact ⟨by omega, by omega, by omega, by omega, by omega⟩
+    · split at h
+      · cases h
+      · injection h with h; injection h with hy h; injection h with hm hd; subst hy; subst hm; subst hd
+        have hm1 : m = 1 := by omega
+        have hd1 : d = 1 := by omega
+        subst hm1; subst hd1
+        rename_i hy0
+        have := dfc_year_rollover (y - 1)
+        have hyy : y - 1 + 1 = y := by omega
+        rw [hyy] at this
+        push_cast at this ⊢
+        exact ⟨by omega, by omega, by omega, by omega, by simp [daysInMonth]⟩
+
+
+def rfcValidP (p : Rfc3339) : Prop :=
+  ValidDate p.y p.mo p.d ∧ p.h ≤ 23 ∧ p.mi ≤ 59 ∧ p.sec ≤ 60 ∧ -1440 < p.offMin ∧ p.offMin < 1440
+
+theorem rfcValid_iff (p : Rfc3339) : rfcValid p = true ↔ rfcValidP p := by
+  simp [rfcValid, rfcValidP, ValidDate, and_assoc]
+
+theorem parseRfc3339_valid (s : Str) (p : Rfc3339) (h : parseRfc3339 s = some p) : rfcValidP p := by
+  unfold parseRfc3339 at h
+  obtain ⟨q, _, hq⟩ := Option.bind_eq_some_iff.mp h
+  split at hq
+  · rename_i hv; injection hq with hq; subst hq; exact (rfcValid_iff q).mp hv
+  · cases hq
+
+/-- the instant a UTC civil date-time denotes (seconds since 1970-01-01T00:00:00Z) -/
+def dtInstant (t : DT) : Int := daysFromCivil t.y t.mo t.d * 86400 + ((t.h * 3600 + t.mi * 60 + t.s : Nat) : Int)
+
+theorem hms_decompose (secs : Nat) (h : secs < 86400) :
+    secs / 3600 * 3600 + secs / 60 % 60 * 60 + secs % 60 = secs ∧ secs / 3600 < 24 ∧ secs / 60 % 60 < 60 ∧ secs % 60 < 60 := by omega
+
+/-- UTC NORMALISATION KEEPS THE INSTANT: whatever `toUtc` returns denotes exactly the instant of the
+supplied date-time (its local time minus its offset; a leap second counted as the second before),
+and is a valid calendar date-time -/
+theorem toUtc_instant (p : Rfc3339) (t : DT) (hv : rfcValidP p) (h : toUtc p = some t) :
+    dtInstant t = instantOf p ∧ ValidDate t.y t.mo t.d ∧ t.h < 24 ∧ t.mi < 60 ∧ t.s < 60 := by
+  obtain ⟨hd, hh, hm, hs, ho1, ho2⟩ := hv
+  unfold toUtc at h
+  simp only at h
+  generalize hsec : (if (p.sec == 60) = true then 59 else p.sec) = sec' at h
+  have hsec' : sec' ≤ 59 := by
+    rw [← hsec]; split
+    · omega
+    · rename_i hne; simp at hne; omega
+  have hinst : instantOf p = daysFromCivil p.y p.mo p.d * 86400 + ((p.h * 3600 + p.mi * 60 + sec' : Nat) : Int) - p.offMin * 60 := by
+    unfold instantOf; rw [← hsec]
+  generalize hloc : ((p.h * 3600 + p.mi * 60 + sec' : Nat) : Int) - p.offMin * 60 = loc at h
+  have hlb : -86400 < loc := by rw [← hloc]; omega
+  have hub : loc < 2 * 86400 := by rw [← hloc]; omega
+  have hinst' : instantOf p = daysFromCivil p.y p.mo p.d * 86400 + loc := by rw [hinst, ← hloc]; omega
+  by_cases c1 : loc < 0
+  · simp only [c1, if_true] at h
+    cases hp : prevDay p.y p.mo p.d with
+    | none => simp [hp] at h
+    | some dd =>
+      obtain ⟨y', m', d'⟩ := dd
+      obtain ⟨hdfc, hvd⟩ := prevDay_dfc _ _ _ _ _ _ hd hp
+      simp only [hp, Option.map] at h
+      have hsecs : (loc + 86400).toNat < 86400 := by omega
+      obtain ⟨e1, e2, e3, e4⟩ := hms_decompose _ hsecs
+      split at h
+      · cases h
+      · injection h with h; subst h
+        refine ⟨?_, hvd, e2, e3, e4⟩
+        simp only [dtInstant]
+        rw [e1, hdfc, hinst']
+        have : ((loc + 86400).toNat : Int) = loc + 86400 := by omega
+        omega
+  · simp only [c1, if_false] at h
+    by_cases c2 : loc ≥ 86400
+    · simp only [c2, if_true] at h
+      cases hp : nextDay p.y p.mo p.d with
+      | none => simp [hp] at h
+      | some dd =>
+        obtain ⟨y', m', d'⟩ := dd
+        obtain ⟨hdfc, hvd⟩ := nextDay_dfc _ _ _ _ _ _ hd hp
+        simp only [hp, Option.map] at h
+        have hsecs : (loc - 86400).toNat < 86400 := by omega
+        obtain ⟨e1, e2, e3, e4⟩ := hms_decompose _ hsecs
+        split at h
+        · cases h
+        · injection h with h; subst h
+          refine ⟨?_, hvd, e2, e3, e4⟩
+          simp only [dtInstant]
+          rw [e1, hdfc, hinst']
+          have : ((loc - 86400).toNat : Int) = loc - 86400 := by omega
+          omega
+    · simp only [c2, if_false] at h
+      have hsecs : loc.toNat < 86400 := by omega
+      obtain ⟨e1, e2, e3, e4⟩ := hms_decompose _ hsecs
+      split at h
+      · cases h
+      · injection h with h; subst h
+        refine ⟨?_, hd, e2, e3, e4⟩
+        simp only [dtInstant]
+        rw [e1, hinst']
+        have : (loc.toNat : Int) = loc := by omega
+        omega
+
+end Dates
 end IsoMdl.Ns
